@@ -69,6 +69,7 @@ type PbfBlock struct {
 	ExtraColumn  bool // parallel columns of different length (way lat longer than refs, one role more than types)
 	ShortRawSize bool // zlib blob whose raw_size is the length of the block without its last group (a valid prefix)
 	PlainNodes   bool // a group of plain (non-dense) Node messages: valid PBF this decoder does not support
+	CutStrings   int  // > 0: string table cut to its first CutStrings entries (references equal to the length are the boundary case)
 }
 
 type PbfFile struct {
@@ -182,6 +183,9 @@ func pbfPrimitiveBlock(b PbfBlock) []byte {
 	blk := &pb.PrimitiveBlock{Stringtable: &pb.StringTable{S: pbfStrings}}
 	if b.ShortStrings {
 		blk.Stringtable = &pb.StringTable{S: pbfStrings[:1]}
+	}
+	if b.CutStrings > 0 && b.CutStrings < len(pbfStrings) {
+		blk.Stringtable = &pb.StringTable{S: pbfStrings[:b.CutStrings]}
 	}
 	if b.Gran != 0 {
 		blk.Granularity = proto.Int32(int32(b.Gran))
@@ -374,6 +378,7 @@ func pbfNormalize(f *PbfFile) {
 	for bi := range f.Blocks {
 		b := &f.Blocks[bi]
 		b.ShortStrings, b.ExtraColumn, b.PlainNodes, b.ShortRawSize = false, false, false, false
+		b.CutStrings = 0
 		b.Gran, b.DateGran = pbfAbs(b.Gran)*50, pbfAbs(b.DateGran)*500
 		// ids ascending and distinct per block so that every object is identifiable
 		for i := range b.Nodes {
@@ -504,4 +509,42 @@ func pbfSame(got, want osm.Object) bool {
 		return true
 	}
 	return false
+}
+
+// pbfMaxRef: the largest string table index the block refers to (0 if it refers to none).
+func pbfMaxRef(b PbfBlock) int {
+	m := 0
+	up := func(i int) {
+		if i > m {
+			m = i
+		}
+	}
+	tags := func(ts []PbfTag) {
+		for _, t := range ts {
+			up(pbfStr(t.K))
+			up(pbfStr(t.V))
+		}
+	}
+	for _, n := range b.Nodes {
+		tags(n.Tags)
+		if b.DenseInfo {
+			up(pbfStr(n.User))
+		}
+	}
+	for _, w := range b.Ways {
+		tags(w.Tags)
+		if w.HasInfo {
+			up(pbfStr(w.User))
+		}
+	}
+	for _, r := range b.Rels {
+		tags(r.Tags)
+		if r.HasInfo {
+			up(pbfStr(r.User))
+		}
+		for _, mb := range r.Members {
+			up(pbfStr(mb.Role))
+		}
+	}
+	return m
 }
